@@ -225,6 +225,9 @@ def core(skip=()):
            "header": "namespace outer { const std::string& name(); void fill(std::vector<int> &v);\n"
                      "  namespace inner { std::vector<double> grid(); } }",
            "decls": ["int top(int a)"], "language": "c++", "options": {}}
+    # a struct whose member types need a standard header that no prototype brings in
+    yield {"pre": ["- decl: struct Big { size_t n; int64_t big; uint8_t flag; };"], "decls": ["int top(int a)"], "language": "c++",
+           "options": {}, "bare_header": True, "header": "#include <cstddef>\n#include <cstdint>"}
     # a struct with pointer members in a library where nothing else needs C_PTR; pointer results next to arguments that
     # bring pre_call code (bool, implied)
     for lang in ("c", "c++"):
